@@ -7,7 +7,7 @@ From ClapModel Require Import Parse.Cmd Parse.Build Parse.Valid Parse.Matcher Pa
 From ClapModel Require Import ParseProofs.Safe ParseProofs.Invariant ParseProofs.Totality
                               ParseProofs.ValidateTotal ParseProofs.Relations ParseProofs.TotalityMain
                               ParseProofs.Sites ParseProofs.SitesComplete ParseProofs.FlagSubClass
-                              ParseProofs.FsTotality ParseProofs.FsAny ParseProofs.FsTop.
+                              ParseProofs.FsTotality ParseProofs.FsAny ParseProofs.FsTop ParseProofs.SitesCoverage.
 From ClapModel Require Import Errors.RenderModel Errors.RenderLink.
 From ClapModel Require Gen.ErrorCtx.
 From ClapModel Require Gen.ParseSites.
@@ -129,9 +129,6 @@ Theorem C01_sites_reasoned_rows :
       ("parser/arg_matcher.rs", "ArgMatcher::start_custom_arg", "debug_assert_eq!", 0);
       ("parser/arg_matcher.rs", "ArgMatcher::start_custom_group", "debug_assert_eq!", 0);
       ("parser/arg_matcher.rs", "ArgMatcher::start_occurrence_of_external", "debug_assert_eq!", 0);
-      ("parser/arg_matcher.rs", "ArgMatcher::start_occurrence_of_external", "expect", 0);
-      ("parser/matches/matched_arg.rs", "MatchedArg::new_external", "expect", 0);
-      ("parser/validator.rs", "Validator::missing_required_error", "debug_assert!", 0);
       ("builder/command.rs", "Command::_build_subcommand", "unwrap", 0);
       ("builder/command.rs", "Command::_build_subcommand", "unwrap", 1);
       ("builder/command.rs", "Command::format_group", "unwrap", 0) ]%string.
@@ -406,3 +403,84 @@ Theorem C01_only_site_920_examples :
       /\ parse_top refuted_nested_cmd [[112]; [45; 83; 102; 113; 122]] = OPanicked 920).
 Proof. exact only_920_examples. Qed.
 Print Assumptions C01_only_site_920_examples.
+
+(** ---------- round 5 (C): every source site has a coverage class; the classes are pinned by name ----------
+    ParseProofs/SitesCoverage.v, SitesGuards.v.  Three rows that rounds 2-4 justified in prose now carry statements about the
+    model proved for every definition and input ([external_guarded]: the loop returns LExternal only under
+    AllowExternalSubcommands -- the guard of the two `get_external_subcommand_value_parser().expect`s; [missing_known]:
+    every id validate_required collects is an argument or group of the command); [C01_sites_reasoned_rows] above lists the
+    10 rows left. *)
+
+(** what each coverage class claims, for every site of that class *)
+Theorem C01_sites_coverage_sound : forall k cov, In (k, cov) site_coverage ->
+  match cov with
+  | CovAllDefs => exists P w, In (k, Proved P w) model_site_table /\ P
+  | CovValid => exists l, In (k, Modelled l) model_site_table
+      /\ forall c0 toks, unbuilt c0 = true -> valid c0 = true -> forall n, In n l -> do_parse c0 toks <> OPanicked n
+  | CovClassOnly => exists l, In (k, Modelled l) model_site_table
+      /\ forall c0 toks, flag_sub_class c0 = true -> valid c0 = true -> forall n, In n l -> do_parse c0 toks <> OPanicked n
+  | CovReasoned => exists w, In (k, Reasoned w) model_site_table
+  end.
+Proof. exact sites_coverage_sound. Qed.
+Print Assumptions C01_sites_coverage_sound.
+
+(** the classification covers exactly the sites the translator finds in the source today, and the members of each class
+    are these (47 of today's 48 sites are covered for every valid definition or justified locally; ONE site is reachable --
+    outside [flag_sub_class] only).  The lists CovClassOnly and CovReasoned are the "differential only" lists the check
+    prints into the evidence (vp/props/c01.py reads them from this statement). *)
+Theorem C01_sites_classified :
+  (List.map fst site_coverage = Gen.ParseSites.parse_sites
+  /\ sites_of CovAllDefs =
+     [ ("parser/parser.rs", "Parser::parse_help_subcommand", "unwrap", 0);
+       ("parser/parser.rs", "Parser::parse_opt_value", "debug_assert_eq!", 0);
+       ("parser/parser.rs", "Parser::parse_opt_value", "debug_assert_eq!", 1);
+       ("parser/arg_matcher.rs", "ArgMatcher::start_occurrence_of_external", "expect", 0);
+       ("parser/matches/matched_arg.rs", "MatchedArg::new_external", "expect", 0);
+       ("parser/validator.rs", "Validator::missing_required_error", "debug_assert!", 0);
+       ("builder/command.rs", "Command::contains_short", "debug_assert!", 0) ]
+  /\ sites_of CovValid =
+     [ ("parser/parser.rs", "Parser::parse", "index", 0);
+       ("parser/parser.rs", "Parser::parse", "unreachable!", 1);
+       ("parser/parser.rs", "Parser::parse", "unreachable!", 2);
+       ("parser/parser.rs", "Parser::parse", "sub", 0);
+       ("parser/parser.rs", "Parser::parse", "unreachable!", 3);
+       ("parser/parser.rs", "Parser::parse", "index", 1);
+       ("parser/parser.rs", "Parser::parse", "expect", 0);
+       ("parser/parser.rs", "Parser::is_new_arg", "index", 0);
+       ("parser/parser.rs", "Parser::is_new_arg", "index", 1);
+       ("parser/parser.rs", "Parser::parse_long_arg", "index", 0);
+       ("parser/parser.rs", "Parser::parse_long_arg", "debug_assert!", 0);
+       ("parser/parser.rs", "Parser::parse_short_arg", "index", 0);
+       ("parser/parser.rs", "Parser::parse_short_arg", "index", 1);
+       ("parser/parser.rs", "Parser::resolve_pending", "expect", 0);
+       ("parser/parser.rs", "Parser::verify_num_args", "expect", 0);
+       ("parser/parser.rs", "Parser::verify_num_args", "expect", 1);
+       ("parser/arg_matcher.rs", "ArgMatcher::add_val_to", "expect", 0);
+       ("parser/arg_matcher.rs", "ArgMatcher::add_index_to", "expect", 0);
+       ("parser/arg_matcher.rs", "ArgMatcher::needs_more_vals", "expect", 0);
+       ("parser/arg_matcher.rs", "ArgMatcher::pending_values_mut", "debug_assert_eq!", 0);
+       ("parser/arg_matcher.rs", "ArgMatcher::pending_values_mut", "debug_assert_eq!", 1);
+       ("parser/matches/matched_arg.rs", "MatchedArg::append_val", "expect", 0);
+       ("parser/matches/matched_arg.rs", "MatchedArg::append_val", "expect", 1);
+       ("parser/validator.rs", "Validator::build_conflict_err", "expect", 0);
+       ("parser/validator.rs", "Validator::build_conflict_err", "expect", 1);
+       ("parser/validator.rs", "gather_direct_conflicts", "debug_assert!", 0);
+       ("parser/validator.rs", "gather_arg_direct_conflicts", "expect", 0);
+       ("builder/command.rs", "Command::_build_self", "assert_app", 0);
+       ("builder/command.rs", "Command::unroll_args_in_group", "expect", 0);
+       ("builder/command.rs", "Command::index", "expect", 0) ]
+  /\ sites_of CovClassOnly =
+     [ ("parser/parser.rs", "Parser::parse_short_arg", "debug_assert_eq!", 0) ]
+  /\ sites_of CovReasoned =
+     [ ("parser/parser.rs", "Parser::parse", "unreachable!", 0);
+       ("parser/parser.rs", "Parser::parse", "unreachable!", 4);
+       ("parser/parser.rs", "Parser::parse", "debug_assert_eq!", 0);
+       ("parser/parser.rs", "Parser::did_you_mean_error", "index", 0);
+       ("parser/arg_matcher.rs", "ArgMatcher::start_custom_arg", "debug_assert_eq!", 0);
+       ("parser/arg_matcher.rs", "ArgMatcher::start_custom_group", "debug_assert_eq!", 0);
+       ("parser/arg_matcher.rs", "ArgMatcher::start_occurrence_of_external", "debug_assert_eq!", 0);
+       ("builder/command.rs", "Command::_build_subcommand", "unwrap", 0);
+       ("builder/command.rs", "Command::_build_subcommand", "unwrap", 1);
+       ("builder/command.rs", "Command::format_group", "unwrap", 0) ])%string.
+Proof. exact sites_classified. Qed.
+Print Assumptions C01_sites_classified.
